@@ -630,6 +630,82 @@ def _(p, i):
     p.expr = f'D{i}().m{i}({p.expr})'
 
 
+# --- carriers added after the first wave of seeded changes (each targets a mechanism the
+# --- first families never exercised: MRO merging, lazy generator values, cls binding, ...)
+
+@carrier('multi_inherit')
+def _(p, i):
+    p.add(f'class Left{i}:\n    def lonly{i}(self):\n        return 1')
+    p.add(f'class Right{i}:\n    def mm{i}(self, q):\n        return q')
+    p.add(f'class Child{i}(Left{i}, Right{i}):\n    pass')
+    p.expr = f'Child{i}().mm{i}({p.expr})'
+
+
+@carrier('diamond_mixin')
+def _(p, i):
+    p.add(f'class Base{i}:\n    def bb{i}(self):\n        return 0')
+    p.add(f'class Mixin{i}:\n    mattr{i} = 2\n    def mix{i}(self, q):\n        self.mself{i} = q\n'
+          f'        return self.mself{i}')
+    p.add(f'class Left{i}(Base{i}):\n    pass')
+    p.add(f'class Right{i}(Base{i}, Mixin{i}):\n    pass')
+    p.add(f'class Child{i}(Left{i}, Right{i}):\n    pass')
+    p.add(f'obj{i} = Child{i}()')
+    p.expr = f'obj{i}.mix{i}({p.expr})'
+
+
+@carrier('gen_hetero_star')
+def _(p, i):
+    p.add(f'def gen{i}(q):\n    for elem{i} in (q, 0.5):\n        yield elem{i}')
+    p.add(f'def first{i}(one{i}, two{i}):\n    return one{i}')
+    p.expr = f'first{i}(*gen{i}({p.expr}))'
+
+
+@carrier('gen_hetero_relay')
+def _(p, i):
+    p.add(f'def gen{i}(q):\n    for elem{i} in (q, 0.5):\n        yield elem{i}')
+    p.add(f'def relay{i}(q):\n    for item{i} in gen{i}(q):\n        yield item{i}')
+    p.add(f'def first{i}(one{i}, two{i}):\n    return one{i}')
+    p.expr = f'first{i}(*relay{i}({p.expr}))'
+
+
+@carrier('inherited_classmethod')
+def _(p, i):
+    p.add(f'class Base{i}:\n    def __init__(self, q):\n        self.held{i} = q\n'
+          f'    @classmethod\n    def create{i}(cls, q):\n        return cls(q)')
+    p.add(f'class Mid{i}(Base{i}):\n    pass')
+    p.add(f'class Leaf{i}(Mid{i}):\n    pass')
+    p.add(f'made{i} = Leaf{i}.create{i}({p.expr})')
+    p.expr = f'made{i}.held{i}'
+    p.protocol_names.add('__init__')
+
+
+@carrier('conditional_reimport')
+def _(p, i):
+    _lib(p, i, f'def pick{i}(q):\n    return q')
+    p.add(f'def pick{i}(q):\n    return q')
+    p.add(f'kept{i} = pick{i}({p.expr})')
+    p.add(f'if len("ab") == 3:\n    from lib{i} import pick{i}')
+    p.expr = f'pick{i}(kept{i})'
+    p.branching = True
+
+
+@carrier('pkg_prefix_sibling')
+def _(p, i):
+    p.files[f'pkg{i}/__init__.py'] = list(p.main) + [(f'val{i} = {p.expr}', p.owner)]
+    p.files[f'pkg{i}_cli.py'] = [(f'import pkg{i}', p.owner), (f'shown{i} = pkg{i}.val{i}', p.owner)]
+    p.main = [(f'from pkg{i}_cli import shown{i}', p.owner)]
+    p.expr = f'shown{i}'
+
+
+@carrier('pkg_self_import')
+def _(p, i):
+    p.files[f'pkg{i}/core{i}.py'] = list(p.main) + [(f'val{i} = {p.expr}', p.owner)]
+    p.files[f'pkg{i}/__init__.py'] = [(f'import pkg{i}.core{i}', p.owner),
+                                      (f'val{i} = pkg{i}.core{i}.val{i}', p.owner)]
+    p.main = [(f'import pkg{i}', p.owner)]
+    p.expr = f'pkg{i}.val{i}'
+
+
 CARRIER_MAP = dict(CARRIERS)
 CARRIER_NAMES = [n for n, _ in CARRIERS]
 
